@@ -203,7 +203,7 @@ pub struct C16Case {
 fn c16_strategy(_ctx: &Ctx) -> BoxedStrategy<C16Case> {
   let kinds = prop::sample::select(vec![
     "interval", "interval_unsub", "timer", "delay", "timeout", "timeout_slow", "sample", "debounce", "time_interval",
-    "interval_default", "timer_default", "timer_zero",
+    "interval_default", "timer_default", "timer_zero", "interval_slow",
   ]);
   (
     kinds,
@@ -218,7 +218,7 @@ fn c16_strategy(_ctx: &Ctx) -> BoxedStrategy<C16Case> {
       // (a second round needs a first one that leaves the hot source alive, and a subscribe
       // call that returns: not the kinds that run inside subscribe or are unsubscribed by
       // the script itself)
-      let second = second && !matches!(kind, "interval_unsub" | "interval_default" | "timer_default");
+      let second = second && !matches!(kind, "interval_unsub" | "interval_default" | "timer_default" | "interval_slow");
       C16Case { kind: kind.to_string(), d, gaps, ending: if second { 1 } else { ending }, n, second, sched }
     })
     .boxed()
@@ -237,6 +237,12 @@ fn c16_build(c: &C16Case) -> Case {
     "interval" => {
       actions.push(Action::Advance(c.d * (c.n as u64 + 2)));
       Node::Un(Op::Take(c.n), Box::new(Node::Src(0, Src::Interval(c.d))))
+    }
+    "interval_slow" => {
+      // a subscriber that takes gaps[0] ms for every tick (delay downstream holds the
+      // ticking thread that long): shorter or longer than the period
+      actions.push(Action::Advance((c.d + c.gaps[0]) * (c.n as u64 + 2)));
+      Node::Un(Op::Take(c.n), Box::new(Node::Un(Op::Delay(c.gaps[0]), Box::new(Node::Src(0, Src::Interval(c.d))))))
     }
     "interval_unsub" => {
       // unsubscribe strictly between two ticks
@@ -386,6 +392,21 @@ fn c16_judge(c: &C16Case, got: Vec<(Rk, u64)>, rep: &mut Report, fail: &dyn Fn(S
       exp.push((Rk::C, c.n as u64 * d));
       if got != exp {
         rep.fail = fail(format!("interval({}).take({}): got <{}>, expected <{}>", d, c.n, show(&got), show(&exp)));
+      }
+    }
+    "interval_slow" => {
+      // the numbers are consecutive whatever the subscriber's pace, none before its time
+      let e = c.gaps[0];
+      rep.classes.push(if e > d { "subscriber-slower-than-the-period".into() } else { "subscriber-faster-than-the-period".into() });
+      let mut exp: Vec<Rk> = (0..c.n).map(|k| Rk::N(P::I(k as i64))).collect();
+      exp.push(Rk::C);
+      let kinds: Vec<Rk> = got.iter().map(|x| x.0.clone()).collect();
+      let early = got.iter().enumerate().take(c.n).any(|(k, (_, t))| *t < (k as u64 + 1) * d + e);
+      if kinds != exp || early {
+        rep.fail = fail(format!(
+          "interval({}).delay({}).take({}): got <{}>, expected the ticks 0..{} (tick k handed on no earlier than (k+1)*{}+{} ms) and complete",
+          d, e, c.n, show(&got), c.n, d, e
+        ));
       }
     }
     "interval_unsub" => {
@@ -609,15 +630,28 @@ pub struct C16ConcCase {
   /// gaps (ms) before each emission, per emitting thread
   pub gaps: Vec<Vec<u64>>,
   pub merged: bool,
+  /// hot0.timeout(d).delay(5) instead of delay(d): items of two threads pass the timeout
+  /// while the other thread's item is still being handed on (a subscriber that takes time)
+  #[serde(default)]
+  pub timeout: bool,
 }
+
+const SLOW_MS: u64 = 5;
 
 fn c16_conc_strategy(_ctx: &Ctx) -> BoxedStrategy<C16ConcCase> {
   let gaps = || prop::collection::vec(prop::sample::select(vec![3u64, 7, 9, 11, 15, 40]), 1..=3);
-  (prop::sample::select(vec![10u64, 25]), gaps(), gaps(), any::<bool>(), sched_strategy())
-    .prop_map(|(d, g0, g1, merged, sched)| {
-      let gaps = vec![g0, g1];
+  (prop::sample::select(vec![10u64, 25]), gaps(), gaps(), any::<bool>(), sched_strategy(), prop::bool::weighted(0.3))
+    .prop_map(|(d, g0, g1, merged, sched, timeout)| {
+      let merged = merged && !timeout;
+      // (timeout: a period no gap of the script reaches, so that the only expiry is the one
+      // after the last item)
+      let d = if timeout { d + 15 } else { d };
+      let short = |g: Vec<u64>| if timeout { g.into_iter().map(|x| x.min(9)).collect() } else { g };
+      let gaps = vec![short(g0), short(g1)];
       let src = |i: usize| Node::Src(0, Src::Hot(i));
-      let mut root = if merged {
+      let mut root = if timeout {
+        Node::Un(Op::Delay(SLOW_MS), Box::new(Node::Un(Op::Timeout(d), Box::new(src(0)))))
+      } else if merged {
         Node::Un(Op::Delay(d), Box::new(Node::Nary(Comb::Merge, vec![src(0), src(1)])))
       } else {
         Node::Un(Op::Delay(d), Box::new(src(0)))
@@ -644,7 +678,7 @@ fn c16_conc_strategy(_ctx: &Ctx) -> BoxedStrategy<C16ConcCase> {
         recorders: vec![vec![]],
         actions: vec![Action::Subscribe(0)],
       };
-      C16ConcCase { cc: super::conc::ConcCase { case, threads, sched }, d, gaps, merged }
+      C16ConcCase { cc: super::conc::ConcCase { case, threads, sched }, d, gaps, merged, timeout }
     })
     .boxed()
 }
@@ -666,6 +700,56 @@ fn c16_conc_check(_ctx: &Ctx, c: &C16ConcCase) -> Report {
       rep.classes.push(format!("aborted:{:?}", k));
       return rep;
     }
+  }
+  if c.timeout {
+    rep.classes.clear();
+    rep.classes.push("timeout-with-a-slow-subscriber".into());
+    // every item is handed on SLOW_MS after it arrived (the emitting thread waits that long);
+    // the period restarts with every hand-over, no gap of the script reaches it: exactly one
+    // TimedOut, d after the last hand-over
+    let mut expected: Vec<(i64, u64)> = Vec::new();
+    let mut spans: Vec<(u64, u64)> = Vec::new();
+    for (t, gs) in c.gaps.iter().enumerate() {
+      let mut now = 0u64;
+      for (j, g) in gs.iter().enumerate() {
+        now += *g;
+        spans.push((now, now + SLOW_MS));
+        now += SLOW_MS;
+        expected.push((100 * (t as i64 + 1) + j as i64, now));
+      }
+    }
+    let last = expected.iter().map(|e| e.1).max().unwrap_or(0);
+    let overlap = spans.iter().enumerate().any(|(i, a)| spans.iter().enumerate().any(|(j, b)| i != j && a.0 < b.1 && b.0 < a.1));
+    rep.nontrivial = overlap;
+    if overlap {
+      rep.classes.push("an-item-arrives-while-another-is-being-handed-on".into());
+    }
+    let mut got: Vec<(i64, u64)> = Vec::new();
+    let mut errs: Vec<(u32, u64)> = Vec::new();
+    let mut after_terminal = false;
+    for e in r.log.recs[0].iter() {
+      match &e.k {
+        Rk::N(p) => {
+          if !errs.is_empty() {
+            after_terminal = true;
+          }
+          got.push((p.as_i64(), e.vt / MS))
+        }
+        Rk::E(code) => errs.push((*code, e.vt / MS)),
+        Rk::C => errs.push((0, e.vt / MS)),
+      }
+    }
+    got.sort();
+    expected.sort();
+    if got != expected || after_terminal {
+      rep.fail = fail(format!("timeout({}).delay({}) handed on (item, ms) {:?}, expected {:?}", c.d, SLOW_MS, got, expected));
+    } else if errs != vec![(CODE_TIMEOUT, last + c.d)] {
+      rep.fail = fail(format!(
+        "timeout({}).delay({}): terminal events (code, ms) {:?}, expected one TimedOut at {} ms ({} ms after the last hand-over)",
+        c.d, SLOW_MS, errs, last + c.d, c.d
+      ));
+    }
+    return rep;
   }
   // delay runs on the emitting thread: the j-th item of a thread is emitted after its gaps
   // and the j delays before it, and handed on d later
@@ -718,7 +802,7 @@ pub fn properties() -> Vec<Property> {
     },
     Property {
       id: "C16",
-      rule: "cases = kind in {interval.take(n), interval unsubscribed between ticks, timer, interval / timer on the default scheduler (run inside subscribe), delay, timeout, timeout with a slow subscriber, sample, debounce, time_interval} x period in {10, 25} ms x gap scripts from {3,7,9,11,15,40} ms (never equal to the period) x ending x generated schedule, 30 % subscribed a second time after the first subscription was cut off right after its last emission (only the second round is judged, counted from its subscribe); oracle = (virtual time, event) pairs equal the timing definition (sample/debounce: strictly increasing selection of source items; sample exact when no tick coincides with an emission); non-trivial = >= 3 timed events; two_threads: delay(d) over one hot source or a merge of two, fed by two emitting threads with generated gaps - every item is handed on exactly d after it was emitted, also while another thread's item is being delayed",
+      rule: "cases = kind in {interval.take(n), interval unsubscribed between ticks, interval under a subscriber that takes 3..40 ms per tick (ticks consecutive, none early), timer, interval / timer on the default scheduler (run inside subscribe), delay, timeout, timeout with a slow subscriber, sample, debounce, time_interval} x period in {10, 25} ms x gap scripts from {3,7,9,11,15,40} ms (never equal to the period) x ending x generated schedule, 30 % subscribed a second time after the first subscription was cut off right after its last emission (only the second round is judged, counted from its subscribe); oracle = (virtual time, event) pairs equal the timing definition (sample/debounce: strictly increasing selection of source items; sample exact when no tick coincides with an emission); non-trivial = >= 3 timed events; two_threads: delay(d) over one hot source or a merge of two, fed by two emitting threads with generated gaps - every item is handed on exactly d after it was emitted, also while another thread's item is being delayed; or timeout(d).delay(5) fed by two threads with gaps below d - exactly one TimedOut, d after the last hand-over",
       assumptions: vec!["virtual clock owned by the runtime (thread::sleep / Instant redirected)", "timeout arms its timer after the first item (as the statement words it)"],
       subs: vec![
         mk_sub("clock", (1000, 20_000), c16_strategy, c16_check),
